@@ -9,7 +9,7 @@
 (* is given by its length, its end points (quantised 1e-6) and the largest *)
 (* deviation of a step from the mean step.                                 *)
 (***************************************************************************)
-EXTENDS Integers, Sequences, TLC, Json, IOUtils, TLCExt
+EXTENDS Integers, Sequences, FiniteSets, TLC, Json, IOUtils, TLCExt
 Lines == ndJsonDeserialize(IOEnv.TRACE_FILE)
 VARIABLES tid, ln, bad, fin
 tvars == <<tid, ln, bad, fin>>
@@ -32,6 +32,16 @@ DatesStep ==
        IF badrows = {} THEN bad' = bad
        ELSE PrintT(<<"VIOL", Id, ln, "OnProductDates", H.kind>>) /\ bad' = bad + 1
     /\ ln' = ln + 1 /\ UNCHANGED <<tid, fin>>
+\* jump times of an interval of k / 8 given their number: the sorted values k j / 512 for the scripted uniforms j / 64
+SortedSeq(q) == \A i \in 1..(Len(q) - 1) : q[i] <= q[i + 1]
+SameBag(a, b) == Len(a) = Len(b) /\ \A v \in {a[i] : i \in 1..Len(a)} \cup {b[i] : i \in 1..Len(b)} :
+                    Cardinality({i \in 1..Len(a) : a[i] = v}) = Cardinality({i \in 1..Len(b) : b[i] = v})
+JumpRowOK(r) == /\ SortedSeq(r.res) /\ SameBag(r.res, [i \in 1..Len(r.js) |-> r.k * r.js[i]])
+JumpTimesStep ==
+    /\ More /\ E.e = "JumpTimes"
+    /\ IF \A i \in 1..Len(E.rows) : JumpRowOK(E.rows[i]) THEN bad' = bad
+       ELSE PrintT(<<"VIOL", Id, ln, "JumpTimesUniformInInterval", H.kind>>) /\ bad' = bad + 1
+    /\ ln' = ln + 1 /\ UNCHANGED <<tid, fin>>
 RaiseStep ==
     /\ More /\ E.e = "Raise"
     /\ PrintT(<<"REJECT", Id, ln, "Raise", H.kind>>)
@@ -40,6 +50,6 @@ Finish ==
     /\ ~fin /\ ln = Len(T) + 1
     /\ IF bad = 0 THEN PrintT(<<"ACCEPT", Id>>) ELSE TRUE
     /\ fin' = TRUE /\ UNCHANGED <<tid, ln, bad>>
-TraceNext == DatesStep \/ RaiseStep \/ Finish
+TraceNext == DatesStep \/ JumpTimesStep \/ RaiseStep \/ Finish
 TraceSpec == TraceInit /\ [][TraceNext]_tvars
 =============================================================================
